@@ -27,7 +27,8 @@ TRUSTED = [
 ]
 ASSUME = [
     "argument kinds generated: integers (incl. >2^16 and >2^24), strings (incl. empty, with a space), NIL; other kinds travel through the same ScriptVariable copy code and are covered by C10/C04",
-    "that ScriptThread::Execute(Event&)/ScriptVM::End perform exactly the modelled cell operations is checked by the `ret=` field of every call, not proved",
+    "that ScriptThread::Execute(Event&)/ScriptVM::End perform exactly the modelled cell operations is checked by the `ret=` field of every call and, in the call-record scenarios, by every value of every record after every command, not proved",
+    "call-record scenarios: values are integers, strings of letters (incl. empty), NIL and pending results; timed waits are > 0; that the cell part of every state of PtrCell/Call.lean is PtrCell.Reachable holds by construction (every change is a PtrCell.step) but is not a theorem: the driver flags a rejected step (MODEL-STUCK), none occurs",
 ]
 
 
